@@ -10,11 +10,16 @@
   * `C04_fault_truncates`: if the `i`-th delivered callback raises, the stream is exactly
     the first `i+1` callbacks of the run in which nothing raises, and the parse fails with
     that exception as its cause; if fewer than `i+1` callbacks are delivered the runs agree.
+  * `C04_block_end` (`Theorems/BlockEnd.lean`): `}` closing a namespace or extern block, for
+    every parser state with that block innermost: the end callback is for exactly that block
+    (same state id, parent = the enclosing block), exactly that block is popped, the visitor
+    in force before the block is restored, nothing else changes.
 -/
 import CxxModel.Theorems.Fault
 import CxxModel.Theorems.Nest
 import CxxModel.Parser.Decl
 import CxxModel.Theorems.FoldCount
+import CxxModel.Theorems.BlockEnd
 namespace Cxx
 
 /-- the world after `on_parse_start` satisfies the nesting invariant -/
@@ -119,5 +124,13 @@ theorem C04_each_payload_stored_once (evs : List Event) (i : Nat) (fs fs' : Fold
     (hn : noParseStart evs = true) (h : foldEvents evs i fs = .ok fs') :
     fs'.total = fs.total + itemCount evs :=
   foldEvents_total evs i fs fs' hn h
+
+theorem C04_block_end (env : Env) (F : Nat) (c : P.Core) (w : World) (blk : Block) (rest : List Block)
+    (hstack : w.stack = blk :: rest) (hg : blk.isGlobal = false) (hk : blk.hdr.kind ≠ .cls) :
+    interp env (P.onBlockEnd F c) w =
+      match deliver env w (mkEvent w .blockEnd blk (rest.head?.map (·.id))) with
+      | (w1, some e) => (w1, .error e)
+      | (w1, none) => ({ w1 with muted := blk.priorMuted, stack := rest }, .ok ()) :=
+  block_end_nonclass env F c w blk rest hstack hg hk
 
 end Cxx
